@@ -1,3 +1,161 @@
 import Driver.Common
--- stub driver (not yet implemented)
-def main : IO Unit := Driver.run () (fun s _ => (s, "bad-op"))
+import SSV.Model.Parsers
+/-
+C06 driver: one entry point call per line, answer `ok <canonical value>` | `err <class>` | `panic`.
+Bytes are hex (`-` = empty). See harness/cmd/corr_c06 for the line formats.
+-/
+open SSV SSV.Go SSV.Outcome SSV.Parsers
+
+namespace C06D
+
+def showR {α : Type} (f : α → String) : R α → String
+  | .ok a => "ok " ++ f a
+  | .err e => "err " ++ e.name
+  | .panic => "panic"
+
+def showAN (x : Addr × Nat) : String := s!"{x.1.render} {x.2}"
+def showASL (x : Addr × Nat × Int) : String := s!"{x.1.render} {x.2.1} {x.2.2}"
+
+def int? (s : String) : Option Int :=
+  if s.startsWith "-" then (String.ofList (s.toList.drop 1)).toNat?.map (fun n => -(n : Int)) else s.toNat?.map (fun n => (n : Int))
+
+def bool? (s : String) : Option Bool := if s == "1" then some true else if s == "0" then some false else none
+
+/-! #### router configuration syntax
+routes `|`-separated, criteria `,`-separated; a criterion is
+`tcp` `udp` `sp=N` `spr=a-b+c-d` `sps=p+p+..` `dp=` `dpr=` `dps=` `dd=hexdom+hexdom` (exact names)
+`dip=PFX+PFX` `drip=PFX+PFX` (resolver = the line's resolver table) `ddx=hexdom+..~CRIT` `!CRIT` `or(CRIT;CRIT;..)`.
+PFX = `4:hexaddr/bits` | `6:hexaddr/bits`.  Resolver table: `hexdom>4:hexip` entries `+`-separated (`-` = empty; missing = lookup error). -/
+
+def splitOn1 (s : String) (c : Char) : List String := (s.split (· == c)).toList.map (·.toString)
+
+def ports? (s : String) : Option (List Nat) := (splitOn1 s '+').mapM (·.toNat?)
+
+def ranges? (s : String) : Option (List (Nat × Nat)) :=
+  (splitOn1 s '+').mapM (fun r => match splitOn1 r '-' with
+    | [a, b] => do pure ((← a.toNat?), (← b.toNat?))
+    | _ => none)
+
+def ipOf? (s : String) : Option (Bool × Bytes) :=
+  match splitOn1 s ':' with
+  | ["4", h] => (ofHex? h).map (fun a => (true, a))
+  | ["6", h] => (ofHex? h).map (fun a => (false, a))
+  | _ => none
+
+def prefix? (s : String) : Option Prefix :=
+  match splitOn1 s '/' with
+  | [ip, bits] => do
+    let (is4, a) ← ipOf? ip
+    pure ⟨is4, a, ← bits.toNat?⟩
+  | _ => none
+
+def prefixes? (s : String) : Option (List Prefix) := (splitOn1 s '+').mapM prefix?
+
+def doms? (s : String) : Option (List Bytes) := (splitOn1 s '+').mapM ofHex?
+
+def resolver? (s : String) : Option (List (Bytes × (Bool × Bytes))) :=
+  if s == "-" then some [] else
+  (splitOn1 s '+').mapM (fun e => match splitOn1 e '>' with
+    | [d, ip] => do pure ((← ofHex? d), (← ipOf? ip))
+    | _ => none)
+
+def lookup (tbl : List (Bytes × (Bool × Bytes))) (d : Bytes) : Option (Bool × Bytes) :=
+  (tbl.find? (·.1 == d)).map (·.2)
+
+/-- split `a;b;c` at top level (no nesting of `or(` inside `or(` is generated) -/
+partial def crit? (tbl : List (Bytes × (Bool × Bytes))) (s : String) : Option Crit :=
+  if s.startsWith "!" then (crit? tbl (String.ofList (s.toList.drop 1))).map Crit.inverted
+  else if s.startsWith "or(" && s.endsWith ")" then
+    let inner := String.ofList ((s.toList.drop 3).dropLast)
+    ((splitOn1 inner ';').mapM (crit? tbl)).map Crit.groupOr
+  else if s == "tcp" then some .networkTCP
+  else if s == "udp" then some .networkUDP
+  else match splitOn1 s '=' with
+    | ["sp", v] => v.toNat?.map Crit.srcPort
+    | ["spr", v] => (ranges? v).map Crit.srcPortRanges
+    | ["sps", v] => (ports? v).map (fun ps => Crit.srcPortSet (fun p => ps.contains p))
+    | ["dp", v] => v.toNat?.map Crit.dstPort
+    | ["dpr", v] => (ranges? v).map Crit.dstPortRanges
+    | ["dps", v] => (ports? v).map (fun ps => Crit.dstPortSet (fun p => ps.contains p))
+    | ["dd", v] => (doms? v).map (fun ds => Crit.dstDomain (fun d => ds.contains d))
+    | ["dip", v] => (prefixes? v).map Crit.dstIP
+    | ["drip", v] => (prefixes? v).map (fun ps => Crit.dstResolvedIP ps (lookup tbl))
+    | ["ddx", v] => match splitOn1 v '~' with
+        | [ds, inner] => do
+          let ds ← doms? ds
+          let c ← crit? tbl (inner.replace "@" "=")
+          pure (Crit.dstDomainExpectedIP (fun d => ds.contains d) c)
+        | _ => none
+    | _ => none
+
+def routes? (tbl : List (Bytes × (Bool × Bytes))) (s : String) : Option (List (List Crit)) :=
+  if s == "-" then some [] else
+  (splitOn1 s '|').mapM (fun r => if r == "*" then some [] else (splitOn1 r ',').mapM (crit? tbl))
+
+def addr? (s : String) : Option Addr :=
+  match splitOn1 s ':' with
+  | ["none"] => some .none
+  | ["4", h, p] => do pure (.ip4 (← ofHex? h) (← p.toNat?))
+  | ["6", h, p] => do pure (.ip6 (← ofHex? h) (← p.toNat?))
+  | ["d", h, p] => do pure (.dom (← ofHex? h) (← p.toNat?))
+  | _ => none
+
+/-- the toy block cipher of the driver: the identity (the harness sends separate headers already decrypted) -/
+def idCiphers (openResult : Option Bytes) : Ciphers := ⟨id, fun _ _ => openResult⟩
+
+def optBytes? (s : String) : Option (Option Bytes) :=
+  if s == "none" then some none else (ofHex? s).map some
+
+def step (_ : Unit) (line : String) : Unit × String :=
+  let bad := ((), "bad-op")
+  let r : Option String := match fields line with
+    | ["addrport", h] => do pure (showR showAN (addrPortFromSlice (← ofHex? h)))
+    | ["connaddr", h] => do pure (showR showAN (connAddrFromSlice (← ofHex? h)))
+    | ["connaddrdc", h] => do pure (showR showAN (connAddrFromSliceDC (← ofHex? h)))
+    | ["appendreader", h] => do
+        pure (showR (fun (x : Bytes × Bytes) => s!"{toHexField x.1} {x.2.length}") (appendFromReader (← ofHex? h)))
+    | ["connaddrreader", h] => do
+        pure (showR (fun (x : Addr × Bytes) => s!"{x.1.render} {x.2.length}") (connAddrFromReader (← ofHex? h)))
+    | ["tcpfixed", now, h] => do
+        pure (showR (fun (n : Nat) => s!"{n}") (parseTCPRequestFixedLengthHeader (← int? now) (← ofHex? h)))
+    | ["tcpvar", h] => do
+        pure (showR (fun (x : Addr × Bytes) => s!"{x.1.render} {toHexField x.2}") (parseTCPRequestVariableLengthHeader (← ofHex? h)))
+    | ["tcpresp", now, salt, h] => do
+        pure (showR (fun (n : Nat) => s!"{n}") (parseTCPResponseHeader (← int? now) (← ofHex? salt) (← ofHex? h)))
+    | ["udpclient", now, h] => do pure (showR showASL (parseUDPClientMessageHeader (← int? now) (← ofHex? h)))
+    | ["udpserver", now, csid, h] => do
+        pure (showR showASL (parseUDPServerMessageHeader (← int? now) (← csid.toNat?) (← ofHex? h)))
+    | ["noneserver", ps, pl, h] => do pure (showR showASL (noneServerUnpack (← ofHex? h) (← ps.toNat?) (← pl.toNat?)))
+    | ["noneclient", fs, ps, pl, h] => do
+        pure (showR showASL (noneClientUnpack (← bool? fs) (← ofHex? h) (← ps.toNat?) (← pl.toNat?)))
+    | ["s5server", ps, pl, h] => do pure (showR showASL (socks5ServerUnpack (← ofHex? h) (← ps.toNat?) (← pl.toNat?)))
+    | ["s5client", fs, ps, pl, h] => do
+        pure (showR showASL (socks5ClientUnpack (← bool? fs) (← ofHex? h) (← ps.toNat?) (← pl.toNat?)))
+    | ["sessioninfo", h] => do
+        pure (showR (fun (x : Nat × Bytes) => s!"{x.1}") (udpSessionInfo (idCiphers none) (← ofHex? h)))
+    | ["newunpacker", idLen, found, h] => do
+        pure (showR (fun (_ : Unit) => "unpacker") (udpNewUnpacker (← idLen.toNat?) (← bool? found) (← ofHex? h)))
+    | ["udpsrvunpack", now, hdr, replayed, opened, ps, pl, h] => do
+        pure (showR showASL (udpServerUnpack (idCiphers (← optBytes? opened)) (← int? now) (← hdr.toNat?) (← bool? replayed)
+          (← ofHex? h) (← ps.toNat?) (← pl.toNat?)))
+    | ["udpcliunpack", now, csid, sessOk, replayed, opened, ps, pl, h] => do
+        pure (showR showASL (udpClientUnpack (idCiphers (← optBytes? opened)) (← int? now) (← csid.toNat?) (← bool? sessOk) (← bool? replayed)
+          (← ofHex? h) (← ps.toNat?) (← pl.toNat?)))
+    | ["directpack", target, targetOnly, srcIsTarget, plen, maxLen] => do
+        pure (showR (fun (_ : Unit) => "packed") (directServerPack (← addr? target) (← bool? targetOnly) (← bool? srcIsTarget) (← plen.toNat?) (← maxLen.toNat?)))
+    | ["directcfg", target, targetOnly] => do
+        pure (if directConfigAccepted Gen.C06.directRejectsTargetOnlyDomain (← addr? target) (← bool? targetOnly) then "accepted" else "rejected")
+    | ["router", res, cfg, net, sport, target] => do
+        let tbl ← resolver? res
+        let routes ← routes? tbl cfg
+        let q : Req := ⟨net == "tcp", ← sport.toNat?, ← addr? target⟩
+        pure (showR (fun (n : Nat) => s!"{n}") (routerMatch curGuards q routes))
+    | ["guards"] => some s!"{curGuards.src} {curGuards.dst} {Gen.C06.directRejectsTargetOnlyDomain}"
+    | _ => none
+  match r with
+  | some s => ((), s)
+  | none => bad
+
+end C06D
+
+def main : IO Unit := Driver.run () C06D.step
